@@ -399,7 +399,7 @@ func (c *Ctx) sessionRules(full bool) (leaveSync bool) {
 					if !isLk || !lk.CommaOk || lk.X != upd.Map || !sameKey(lk.Index, upd.Key) {
 						continue
 					}
-					if b.Succs[1].Dominates(upd.Block()) {
+					if edgeDominates(b, 1, upd.Block()) {
 						guarded = true
 						// the ok branch: sends an error that wraps the key-exists sentinel and performs no update
 						okBranch := b.Succs[0]
